@@ -17,7 +17,14 @@ EXPLANATION = (
     "and ArgGroup::args only on the !group.multiple edge; gather_group_direct_conflicts returns the group's conflicts. "
     "R3.5 exemptions only as documented: every missing_required.push in validate_required is control-dependent on "
     "!is_exclusive_present (and for graph requirements on !is_missing_required_ok), nothing else suppresses it; "
-    "is_exclusive_present is computed over explicitly present args. NOT decided: correctness of the required graph and "
+    "is_exclusive_present is computed over explicitly present args. R3.6 conditional requirements: the field name states the "
+    "quantifier (Arg::r_ifs / r_unless = any, r_ifs_all / r_unless_all = all); in validate_required every `required = true` is "
+    "guarded by the matching test (check_explicit(other, Equals(val)) inside the r_ifs loop; all(r_ifs_all) && !is_empty; "
+    "fails_arg_required_unless), the candidates are the arguments NOT explicitly present, and fails_arg_required_unless returns "
+    "false exactly on (all of r_unless_all present) or (any of r_unless present), presence = check_explicit(IsPresent). R3.7 `requires` propagation: gather_requires feeds every explicitly present arg through "
+    "unroll_arg_requires with a relevance closure `matched.check_explicit(pred).then(req)` (un-negated) and inserts every result, and "
+    "every `requires` of a present group, into the required graph unconditionally; unroll_arg_requires collects every relevant "
+    "requirement of every visited arg and continues through requirements that themselves require something (transitive). NOT decided: correctness of the required graph and "
     "group unrolling on arbitrary graphs."
 )
 TRUSTED = ["rustc MIR", "clapfacts"]
@@ -218,3 +225,90 @@ def run(ctx):
     ve = fx.body("clap_builder::parser::validator::Validator::validate_exclusive")
     okx = bool(tree_calls(ve, r"Arg::is_exclusive_set$")) and bool(ve.calls_to(r"error::Error::argument_conflict$") or tree_calls(ve, r"error::Error::argument_conflict$"))
     res.check(okx, "R3.5", "validate_exclusive", ve.where(), "exclusive arg with other explicit args => ArgumentConflict", "validate_exclusive no longer raises for an exclusive arg among others")
+
+
+    # ---- R3.6 conditional requirements: quantifier <-> field agreement and polarity
+    WANT = {"r_ifs": "any", "r_ifs_all": "all", "r_unless": "any", "r_unless_all": "all"}
+    fu = fx.body("clap_builder::parser::validator::Validator::fails_arg_required_unless")
+    nq = 0
+    for b in (vq, fu):
+        for c in b.calls_to(r"Iterator>?::(all|any)$"):
+            m = re.search(r"\.(r_ifs_all|r_ifs|r_unless_all|r_unless)\)?$", expr(b, c.args[0]))
+            if not m:
+                continue
+            nq += 1
+            nm = c.callee_q.rsplit("::", 1)[1]
+            cbs = closure_bodies(fx, c)
+            pred = "Equals" if m.group(1).startswith("r_ifs") else "IsPresent"
+            okp = any(pred in agg_variants(cb2, cc.args[2]) for cb in cbs for cb2 in tree(cb) for cc in cb2.calls_to(r"ArgMatcher::check_explicit$"))
+            neg = any(expr(cb, 0).startswith("Not(") for cb in cbs)
+            res.check(nm == WANT[m.group(1)] and okp and not neg, "R3.6", "quantifier|%s|%s" % (b.q.rsplit("::", 1)[1], m.group(1)), c.where(),
+                      "%s over Arg::%s with check_explicit(%s)" % (nm, m.group(1), pred),
+                      "Arg::%s is evaluated with `%s`%s%s (its documented meaning is %s of the listed conditions, each tested by check_explicit(.., %s))" % (
+                          m.group(1), nm, "" if okp else " without check_explicit(%s)" % pred, " over a negated test" if neg else "", WANT[m.group(1)], pred))
+    res.floor("R3.6", "quantified tests over r_ifs_all / r_unless / r_unless_all", nq, 3)
+    reqs = vq.locals_named("required")
+    sets = [(i, s_) for i, j, s_ in vq.stmts() if s_["k"] == "assign" and s_["place"] in reqs and s_["rv"]["k"] == "use" and op_int(s_["rv"]["op"]) == 1]
+    res.floor("R3.6", "`required = true` sites in validate_required", len(sets), 3)
+    for i, s_ in sets:
+        gl = guard_strs(vq, i)
+        if any(re.match(r"^T:check_explicit\(matcher,.*\.r_ifs\)\)#Some\.0\.0,ArgPredicate::Equals\(into\(.*\.r_ifs\)\)#Some\.0\.1\)\)\)$", g) for g in gl):
+            res.ok("R3.6", "required-set|r_ifs", "%s bb%d" % (vq.where(), i), "any (other, val) of r_ifs with other == val explicitly")
+        elif any(re.match(r"^T:all\(iter\(.*\.r_ifs_all\)", g) for g in gl):
+            res.check(any(re.match(r"^F:is_empty\(.*\.r_ifs_all\)$", g) for g in gl), "R3.6", "required-set|r_ifs_all", "%s bb%d" % (vq.where(), i),
+                      "all of r_ifs_all hold and the list is not empty", "an empty required_if_eq_all list makes the argument required")
+        elif any(re.match(r"^T:fails_arg_required_unless\(", g) for g in gl):
+            res.ok("R3.6", "required-set|r_unless", "%s bb%d" % (vq.where(), i), "fails_arg_required_unless")
+        else:
+            res.violation("R3.6", "required-set|unrecognised", "%s bb%d" % (vq.where(), i),
+                          "a conditional requirement is raised under %s — not one of: a matching r_ifs pair, all of r_ifs_all (non-empty), fails_arg_required_unless" % [g[:90] for g in gl[-2:]])
+    # candidates = arguments that are not explicitly present
+    flt = [c for c in vq.calls_to(r"Iterator::filter$") if re.match(r"^get_arguments\(self\.cmd\)$", expr(vq, c.args[0]))]
+    res.floor("R3.6", "get_arguments().filter in validate_required", len(flt), 1)
+    for c in flt:
+        cbs = closure_bodies(fx, c)
+        okf = any(expr(cb, 0).startswith("Not(check_explicit(") and any("IsPresent" in agg_variants(cb, cc.args[2]) for cc in cb.calls_to(r"ArgMatcher::check_explicit$")) for cb in cbs)
+        res.check(okf, "R3.6", "candidates-absent-only", c.where(), "conditional requirements examined for arguments not explicitly present",
+                  "conditional requirements are examined for a different candidate set than `not explicitly present`: %s" % [expr(cb, 0)[:80] for cb in cbs])
+    # fails_arg_required_unless polarity
+    falses = [i for i, j, s_ in fu.stmts() if s_["k"] == "assign" and s_["place"] == 0 and s_["rv"]["k"] == "use" and op_int(s_["rv"]["op"]) == 0]
+    others = [(i, s_) for i, j, s_ in fu.stmts() if s_["k"] == "assign" and s_["place"] == 0 and not (s_["rv"]["k"] == "use" and op_int(s_["rv"]["op"]) is not None)]
+    okA = any(any(re.match(r"^T:all\(iter\(a\.r_unless_all\)", g) for g in guard_strs(fu, i)) and any(re.match(r"^F:is_empty\(a\.r_unless_all\)$", g) for g in guard_strs(fu, i)) for i in falses)
+    okB = any(re.match(r"^Not\(any\(iter\(a\.r_unless\),", expr(fu, s_["rv"]["a"]) if s_["rv"]["k"] == "unop" else "") is not None or
+              (s_["rv"]["k"] == "unop" and s_["rv"]["op"] == "Not" and re.match(r"^any\(iter\(a\.r_unless\),", expr(fu, s_["rv"]["a"])) is not None) for i, s_ in others)
+    if falses or others:
+        res.check(okA and okB, "R3.6", "unless-polarity", fu.where(), "false iff (r_unless_all non-empty and all present) or (any of r_unless present)",
+                  "fails_arg_required_unless no longer returns false exactly when all of r_unless_all / any of r_unless is present (all-branch ok=%s, any-branch ok=%s)" % (okA, okB))
+
+
+    # ---- R3.7 requires propagation
+    gr = fx.body("clap_builder::parser::validator::Validator::gather_requires")
+    un = gr.calls_to(r"Command::unroll_arg_requires$")
+    require(fx, res, "R3.7", "unrolls-requires", gr, r"Command::unroll_arg_requires$", len(un), 1, "gather_requires no longer unrolls the `requires` of present arguments")
+    for c in un:
+        okc = False
+        for cb in closure_bodies(fx, c):
+            for t in cb.calls_to(r"bool::then(_some)?$"):
+                e = expr(cb, t.args[0])
+                okc = okc or re.fullmatch(r"check_explicit\(arg1\.0,arg2\.0\)", e) is not None
+        res.check(okc, "R3.7", "relevance-closure", c.where(), "a requirement is relevant iff matched.check_explicit(its predicate)",
+                  "the relevance closure of gather_requires no longer is `matched.check_explicit(pred).then(req)`")
+    ins = gr.calls_to(r"ChildGraph<[^>]*>::insert$|ChildGraph::insert$")
+    from_unroll = [c for c in ins if re.match(r"^next\(into_iter\(unroll_arg_requires\(", expr(gr, c.args[1]))]
+    from_group = [c for c in ins if re.match(r"^clone\(next\(into_iter\(find_group\(.*\.requires\)\)#Some\.0\)$", expr(gr, c.args[1]))]
+    for key, cs, what in (("arg", from_unroll, "unrolled requirements of a present argument"), ("group", from_group, "requirements of a present group")):
+        if not cs:
+            res.violation("R3.7", "inserted|" + key, gr.where(), "gather_requires no longer inserts the %s into the required graph" % what)
+        for c in cs:
+            bg = [g for g in guard_strs(gr, c.bb) if re.match(r"^[TF]:", g)]
+            res.check(not bg, "R3.7", "inserted|" + key, c.where(), "every one of the %s is inserted" % what, "%s are inserted only under %s" % (what, bg))
+    ur = fx.body("clap_builder::builder::command::Command::unroll_arg_requires")
+    pushes = ur.calls_to(r"Vec::push$")
+    coll = [c for c in pushes if re.match(r"^next\(into_iter\(filter_map\(iter\(find\(self,pop\(.*\.requires\),func\)\)\)#Some\.0$", expr(ur, c.args[1]))]
+    cont = [c for c in pushes if re.match(r"^get_id\(find\(self,next\(into_iter\(filter_map\(", expr(ur, c.args[1]))]
+    res.floor("R3.7", "collecting push in unroll_arg_requires", len(coll), 1)
+    for c in coll:
+        bg = [g for g in guard_strs(ur, c.bb) if re.match(r"^[TF]:", g) and not re.match(r"^F:contains\(", g)]
+        res.check(not bg, "R3.7", "collects-every-relevant", c.where(), "every relevant requirement of a visited arg is collected", "requirements are collected only under %s" % bg)
+    res.check(bool(cont) and all(any(re.match(r"^F:is_empty\(.*\.requires\)$", g) for g in guard_strs(ur, c.bb)) for c in cont), "R3.7", "transitive", ur.where(),
+              "requirements that require something are visited too", "unroll_arg_requires no longer follows requirements transitively (or under a different condition)")
